@@ -307,9 +307,10 @@ def run_history(case, st):
     com, mapi = 0x1800, 0x1A00
     cfgs = []
     for cob, enabled, tt in itertools.product((0x181, 0x7FF), (True, False), (1, 255)):
-        for mp in (MAPPINGS[0], MAPPINGS[2], MAPPINGS[6], MAPPINGS[-1]):
-            timers = tuple(7 if s_ in subs else None for s_ in (3, 5, 6))
-            cfgs.append((cob, enabled, True, tt, timers, mp))
+        for mp in (MAPPINGS[0], MAPPINGS[6]):
+            for tv in (7, 0):
+                timers = tuple(tv if s_ in subs else None for s_ in (3, 5, 6))
+                cfgs.append((cob, enabled, True, tt, timers, mp))
     for a, b in itertools.permutations(cfgs, 2):
         dev = StrictPdoDevice(com, mapi, subs, "blank", abort_cls=canopen.SdoAbortedError)
         rc = dict(case, first=[a[0], a[1], a[3], [list(x) for x in a[5]]], second=[b[0], b[1], b[3], [list(x) for x in b[5]]])
